@@ -363,8 +363,19 @@ def gen_update_case(rng, i, witness=None):
         while len(code) < spacing:
             code.append(rng.choice([0xc3, 0x55, 0x90, 0x48, 0x89, 0xcc, 0x00, 0xe8]))
         named = rng.random() < 0.85
+        pre = 0
+        if ty == 5 and kind == "gcc" and not endbr and rng.random() < 0.3:
+            # -fpatchable-function-entry=N,M: M NOPs (and the recorded location) in front of the entry;
+            # either 5 NOPs remain at the entry (N = 5+M) or only 5-M (N = 5)
+            pre = rng.choice([1, 2, 3, 4])
+            if rng.random() < 0.5:
+                code[0:5] = bytes([0x90] * (5 - pre)) + bytes(rng.choice([0x55, 0x8d, 0x48]) for _ in range(pre))
+                tags.append("pre-entry-N=5")
+            else:
+                tags.append("pre-entry-N=5+M")
+            data += bytes([0x90] * pre)
         funcs.append({"off": len(data), "size": size, "name": names[k], "named": named, "kind": kind, "endbr": endbr,
-                      "stype": rng.choice([84, 84, 84, 116, 116, 119, 80, 100, 63])})
+                      "stype": rng.choice([84, 84, 84, 116, 116, 119, 80, 100, 63]), "pre": pre})
         data += code
         tags.append("pro=%s%s" % ("endbr+" if endbr else "", kind))
         if size < 6:
@@ -403,6 +414,8 @@ def gen_update_case(rng, i, witness=None):
             syms.append((a, f["size"], f["stype"], f["name"]))
         if ty == 5 and tight:
             targets.append(a)
+        elif ty == 5 and f.get("pre"):
+            targets.append(a - f["pre"])
         elif ty == 5:
             r = rng.random()
             if r < 0.85:
